@@ -1715,6 +1715,8 @@ class Interp:
                 return AStr(parts).simplify()
             if attr == "split":
                 return self.str_split(s, pos, node)
+            if attr in ("partition", "rpartition") and pos:
+                return self.str_partition(s, pos[0], last=(attr == "rpartition"))
             if attr in ("strip", "rstrip", "lstrip"):
                 if s.is_concrete():
                     return getattr(s.literal(), attr)(*pos)
@@ -1989,9 +1991,34 @@ class Interp:
             else:
                 cur.append(p)
         pieces.append(AStr(cur).simplify())
-        if len(pos) > 1 and isinstance(pos[1], int):
-            raise Unsupported("split with maxsplit")
+        if len(pos) > 1 and isinstance(pos[1], int) and 0 <= pos[1] < len(pieces) - 1:
+            # maxsplit: the tail stays one piece, separators included
+            head, tail = pieces[:pos[1]], pieces[pos[1]:]
+            joined = []
+            for i_, t_ in enumerate(tail):
+                if i_:
+                    joined.append(sep)
+                joined.append(t_)
+            pieces = head + [AStr(joined).simplify()]
         return pieces
+
+    def str_partition(self, s, sep, last=False):
+        """str.partition / rpartition on a string with holes (holes are free of the separator)."""
+        if not isinstance(sep, str) or not sep:
+            raise Unsupported("partition on an abstract separator")
+        parts = list(s.parts)
+        rng = range(len(parts) - 1, -1, -1) if last else range(len(parts))
+        for i in rng:
+            p_ = parts[i]
+            if isinstance(p_, str):
+                j = p_.rfind(sep) if last else p_.find(sep)
+                if j >= 0:
+                    before = AStr(parts[:i] + [p_[:j]]).simplify()
+                    after = AStr([p_[j + len(sep):]] + parts[i + 1:]).simplify()
+                    conc = lambda a: a.literal() if a.is_concrete() else a
+                    return (conc(before), sep, conc(after))
+        whole = s.literal() if s.is_concrete() else s
+        return ("", "", whole) if last else (whole, "", "")
 
     def str_format(self, s, pos, kw, node):
         out = []
@@ -2086,7 +2113,7 @@ class BoundMethod:
 
 
 _STR_METHODS = {"format", "join", "lower", "upper", "count", "replace", "split", "strip", "rstrip",
-                "lstrip", "startswith", "endswith", "encode", "decode"}
+                "lstrip", "startswith", "endswith", "encode", "decode", "partition", "rpartition"}
 
 _OPS = {ast.Eq: "==", ast.NotEq: "!=", ast.Lt: "<", ast.LtE: "<=", ast.Gt: ">", ast.GtE: ">="}
 
